@@ -36,9 +36,34 @@ def is_call(t, key):
     return isinstance(t, tuple) and t[0] == "call" and t[1] == key
 
 
-def arg_named(t, name):
+def _is_meta_version(t):
+    """`<x>.version` where x is the AdtMetadata the function was given (a parameter, or the field it was stored in)"""
     t = strip_refs(t)
-    return isinstance(t, tuple) and t[0] == "arg" and t[2] == name
+    while isinstance(t, tuple) and t[0] in ("deref", "copy", "cast") and len(t) > 1 and isinstance(t[1], tuple):
+        t = strip_refs(t[1])
+    if not (isinstance(t, tuple) and t[0] == "field" and t[2] == "version"):
+        return False
+    base = t[1]
+    while isinstance(base, tuple) and base[0] in ("deref", "ref", "copy"):
+        base = base[1]
+    if isinstance(base, tuple) and base[0] == "arg":
+        tys = base[3] if len(base) > 3 else ""
+        tys = tys.get("s") if isinstance(tys, dict) else tys
+        return "AdtMetadata" in str(tys)
+    return isinstance(base, tuple) and base[0] == "field" and base[2] == "metadata"
+
+
+def arg_named(t, name, ty=None):
+    """the parameter called `name` - or, whatever it is called, the function's only parameter of type `ty`"""
+    t = strip_refs(t)
+    if not (isinstance(t, tuple) and t[0] == "arg"):
+        return False
+    if t[2] == name:
+        return True
+    tys = t[3] if len(t) > 3 else None
+    if isinstance(tys, dict):
+        tys = tys.get("s")
+    return ty is not None and tys == ty
 
 
 def zero_test(c):
@@ -633,7 +658,7 @@ def constructors(an, rep):
             cs = sig_calls(p)
             ks = [c[3] for c in cs]
             okk = ks[:2] == ["BinaryOutput::write_var_u32", "FnOnce::call_once"] and len(cs) == 2 and \
-                arg_named(cs[0][5][1], "constructor_idx")
+                arg_named(cs[0][5][1], "constructor_idx", "u32")
             R.check(okk, b.key, "layout", "constructor is not written as VarU32(constructor_idx) followed by the case body: %s" % ks,
                     None, sample={"fn": b.key, "events": ks})
     return R
@@ -1612,7 +1637,7 @@ def record_writer(an, rep):
             if p.outcome[0] != "return":
                 continue
             ws = [c for c in sig_calls(p) if c[3].startswith("BinaryOutput::write_")]
-            okk = len(ws) == 1 and ws[0][3] == "BinaryOutput::write_u8" and "metadata.version" in show(ws[0][5][1]).replace("*", "").replace("$", "")
+            okk = len(ws) == 1 and ws[0][3] == "BinaryOutput::write_u8" and _is_meta_version(ws[0][5][1])
             R.check(okk, fn, "version byte", "constructor must write exactly the version byte: %s" % [show(c[5][1]) for c in ws],
                     None, sample={fn: "write_u8(metadata.version)"})
             ret = strip_refs(p.outcome[1])
@@ -1722,9 +1747,18 @@ def record_writer(an, rep):
                 v = "Some"
             elif v == "Vacant":
                 v = "None"
+            # the position is only ever looked up for the fields a FieldMadeOptional step names (write_evolution_header), and
+            # those are the keys of metadata.made_optional_at (T14): a path that merely counts a field which is not among them
+            # and files no position is equivalent
+            skipped = any(a[1][0] == "call" and a[1][1].endswith("::contains_key") and "made_optional_at" in show(a[1][3][0])
+                          and any(x[0] == "arg" and "str" in str(x[3] if len(x) > 3 else "") for x in mir.walk_expr(a[1][3][1]))
+                          and guards.truth(a[2]) is False for a in p.atoms())
+            if skipped and not pos and not any("FieldPosition" in show(c[5][-1]) for c in ins):
+                rows.add("counted only")
+                continue
             if v == "Some":
                 rows.add("next")
-                okk = len(pos) == 1 and "Add" in show(pos[0][5][1]) and arg_named(pos[0][5][0], "chunk")
+                okk = len(pos) == 1 and "Add" in show(pos[0][5][1]) and arg_named(pos[0][5][0], "chunk", "u8")
                 R.check(okk, b.key, "next position", "later fields of a chunk must get last_index + 1 within that chunk: %s" %
                         [show(a) for a in pos[0][5]] if pos else None, None, sample={"record_field_index": "(chunk, last+1)"})
             elif v == "None":
@@ -1732,9 +1766,9 @@ def record_writer(an, rep):
                 first = strip_refs(pos[0][5][1]) if len(pos) == 1 else ("unk",)
                 zero = guards.rng(first) == (0, 0) or (first[0] == "call" and first[1].endswith("::insert") and
                                                        guards.rng(first[3][-1]) == (0, 0))
-                okk = len(pos) == 1 and zero and arg_named(pos[0][5][0], "chunk")
+                okk = len(pos) == 1 and zero and arg_named(pos[0][5][0], "chunk", "u8")
                 R.check(okk, b.key, "first position", "the first field of a chunk must get position 0")
-        R.check(rows == {"first", "next"}, b.key, "rows", "rows: %s" % sorted(rows))
+        R.check(rows - {"counted only"} == {"first", "next"}, b.key, "rows", "rows: %s" % sorted(rows))
     return R
 
 
@@ -1768,7 +1802,7 @@ def header_reader(an, rep):
                     sample={"arm": v, "effect": "made_optional_at.insert(position, idx)"})
             R.check("InputRegion::empty" in show(pushes[0][5][1]) if pushes else False, b.key, "empty region " + v, "non-chunk step must record an empty region")
         elif v == "FieldRemoved":
-            okk = len(ins_rem) == 1 and not ins_opt and "field_name" in show(ins_rem[0][5][1])
+            okk = len(ins_rem) == 1 and not ins_opt and "FieldRemoved" in show(ins_rem[0][5][1])
             R.check(okk, b.key, "removed", "FieldRemoved must add the name to removed_fields", None,
                     sample={"arm": v, "effect": "removed_fields.insert(name)"})
         elif v == "FieldAddedToNewChunk":
@@ -1808,7 +1842,7 @@ def header_reader(an, rep):
             if inner and inner[0] == "agg":
                 names = [fl["name"] for a in core.items["adts"] if a["path"] == inner[2] for fl in a["variants"][0]["fields"]]
                 f = dict(zip(names, inner[4]))
-                R.check(arg_named(f.get("stored_version"), "stored_version"), b.key, "stored_version",
+                R.check(arg_named(f.get("stored_version"), "stored_version", "u8"), b.key, "stored_version",
                         "stored_version must be the version byte passed in", None, sample={"new": "stored_version := argument"})
             break
     v0 = core.find("AdtDeserializer::new_v0")
